@@ -121,7 +121,15 @@ func TestVerifC04(t *testing.T) {
 			// a monitoring interface listed after the advertising ones: it sends no RA,
 			// so no misconfiguration may ever be reported for it, whatever its
 			// neighbours in the list are doing
+			// (in every other scenario it is listed FIRST: positions in the list of
+			// configured interfaces and in the list of advertising ones then differ)
+			monFirst := i%2 == 1
 			promIfis := append(append([]config.Interface(nil), ifis...), config.Interface{Name: "vmon9", Monitor: true})
+			apiOff := 0
+			if monFirst {
+				promIfis = append([]config.Interface{{Name: "vmon9", Monitor: true}}, ifis...)
+				apiOff = 1
+			}
 			prom := vNewProm(h0.st, config.Config{Interfaces: promIfis, Debug: config.Debug{Address: ":0", Prometheus: true}}, nil)
 			hooks := make([][]*ndp.RouterAdvertisement, nIf)
 			for k, h := range hs {
@@ -208,8 +216,16 @@ func TestVerifC04(t *testing.T) {
 							viol = fmt.Sprintf("API body: %v / %d interfaces", err, len(list))
 							break
 						}
+						if m := list[(len(list)-1)*(1-apiOff)]; m["interface"] != "vmon9" || m["advertisement"] != nil {
+							viol = fmt.Sprintf("API entry of the monitoring interface vmon9 is %v", m)
+							break
+						}
 						for kk := range ifis {
-							adv, _ := list[kk]["advertisement"].(map[string]any)
+							if list[kk+apiOff]["interface"] != ifis[kk].Name {
+								viol = fmt.Sprintf("API entry %d is %v, the configuration lists %s there", kk+apiOff, list[kk+apiOff]["interface"], ifis[kk].Name)
+								break
+							}
+							adv, _ := list[kk+apiOff]["advertisement"].(map[string]any)
 							want, _, _ := model.ExpectedRA(exps[kk], &model.Sys{MAC: vMAC}, cur[kk], vEpoch, time.Now())
 							if d := vJSONDiff("advertisement", vExpectedAPI(want), adv, map[string]bool{"pref64": true}); d != "" && viol == "" {
 								viol = fmt.Sprintf("API for %s with forwarding=%v: %s", ifis[kk].Name, cur[kk], d)
